@@ -21,7 +21,11 @@ chk.extra['rule'] = (
     'criterion always/chain/regions, lattice coordinates with many pairs exactly at the cut-off, run through the '
     'real ApplyRubberBand.run_molecule or apply_rubber_band; a case is non-trivial if >= 1 elastic bond is emitted '
     'and, over all node pairs, each of the criteria selection, domain, residue separation and distance has >= 1 '
-    'passing and >= 1 failing pair (in the decay stream also the force criterion); distinct = distinct protocol line')
+    'passing and >= 1 failing pair (in the decay stream also the force criterion); option-resolution cases count if an '
+    'option is left to the force field and the force field defines variables; histories (one processor object over '
+    '2-3 molecules with different force-field variables) count if bonds are emitted and the resolved separation '
+    'differs between applications; region cases count if regions overlap and the pair shares one; '
+    'distinct = distinct protocol line')
 chk.lean(['VermouthProps.C15'], 'driver_c15')
 chk.trusted += [
     'harness/c15.py: molecule builder, canonicaliser, independent oracle (five criteria by the property text, residue '
@@ -342,6 +346,8 @@ def oracle(spec, exc, rubber, warns, intact, table, ktab_fn):
 
 def expected_bond_type(spec):
     p = spec['params']
+    if 'expect_bt' in p:
+        return p['expect_bt']
     if p['via'] == 'processor_ffvars':
         return p.get('ffvars', {}).get('elastic_network_bond_type', ARB.DEFAULT_BOND_TYPE)
     return p['bond_type']
@@ -349,6 +355,8 @@ def expected_bond_type(spec):
 
 def effective_sep(spec):
     p = spec['params']
+    if 'expect_sep' in p:
+        return p['expect_sep']
     if p['via'] == 'processor_ffvars':
         return p.get('ffvars', {}).get('elastic_network_res_min_dist', ARB.DEFAULT_RMD)
     return p['sep']
@@ -457,10 +465,20 @@ def gen_spec(rng, decay, big=False):
         dom = ['chain']
     else:
         rs = []
-        for _ in range(rng.choice([1, 1, 2, 3])):
-            a = rng.choice(atoms)['resid'] + rng.choice([0, 0, -1, 1, 10])
-            b = a + rng.choice([1, 2, 3, 5, 8, 8, 12, -2, -4, -9, 0])
+        for _ in range(rng.choice([1, 1, 2, 2, 3, 4])):
+            if rs and rng.random() < 0.5:
+                # overlapping: starts strictly inside the previous region, ends beyond it (or inside)
+                lo_, hi_ = min(rs[-1]), max(rs[-1])
+                a = rng.randint(lo_, hi_)
+                b = rng.choice([hi_ + rng.choice([1, 2, 4]), rng.randint(lo_, hi_)])
+            else:
+                a = rng.choice(atoms)['resid'] + rng.choice([0, 0, -1, 1, 10])
+                b = a + rng.choice([1, 2, 3, 5, 8, 8, 12, -2, -4, -9, 0])
+            if rng.random() < 0.3:
+                a, b = b, a                                   # bounds in either order
             rs.append([a, b])
+        if rng.random() < 0.3:
+            rng.shuffle(rs)
         dom = ['regions', rs]
     via = rng.choice(['function', 'processor', 'processor', 'processor_ffvars'])
     p = {'names': sel_names, 'U': U, 'lo': 0.0, 'a': 0.0, 'pw': 0.0, 'base': base,
@@ -598,6 +616,345 @@ for (cid, ln, impl, errs, nontriv, finding), mo in zip(results, models):
     if mo is not None and mo.startswith('error '):
         mo = 'error'
     chk.case(cid, ln, impl, mo, errs, nontriv, finding=finding)
+
+# ---- the processor object: option resolution, reuse over several molecules -----------------------
+DEFAULT_VARS = ('elastic_network_bond_type', 'elastic_network_res_min_dist')
+
+
+def gen_proc(rng, decay=False):
+    """constructor arguments of one ApplyRubberBand; None = keyword not passed at all, 'None' = passed as None"""
+    step = rng.choice([20, 32, 50, 64])
+    base = rng.choice([500.0, 700.0, 1.0])
+    cfg = {'names': list(rng.choice(SELECTIONS)), 'default_selector': rng.random() < 0.4,
+           'step': step, 'U': step * rng.choice([2, 3, 3, 5, 6]), 'lo': 0.0, 'a': 0.0, 'pw': 0.0, 'base': base,
+           'minf': rng.choice([0.0, 0.0, 0.0, 0.25, base / 2]),
+           'rmd': rng.choice([None, None, 'None', 0, 0, 1, 2, 3]),
+           'bt': rng.choice([None, None, 'None', 0, 1, 6, 6]),
+           'btv': rng.choice([None, None, 'my_bt']), 'rmdv': rng.choice([None, None, 'my_rmd'])}
+    if decay:
+        cfg['lo'] = rng.choice([0.0, 0.25, 0.5])
+        cfg['a'] = rng.choice([0.5, 1.0, 2.5])
+        cfg['pw'] = rng.choice([1, 2, 3])
+        cfg['minf'] = rng.choice([0.0, base * 0.05, base * 0.3])
+    r = rng.random()
+    if r < 0.3:
+        cfg['dom'] = ['always']
+    elif r < 0.6:
+        cfg['dom'] = ['chain']
+    else:
+        rs = []
+        a = rng.choice([1, 1, 2, 5, -3])
+        for _ in range(rng.choice([1, 2, 2, 3])):
+            b = a + rng.choice([2, 3, 4, 6])
+            rs.append([a, b] if rng.random() < 0.7 else [b, a])
+            a = rng.choice([b - 1, b - 2, b + 1, b + 2])     # next region overlaps or not
+        if rng.random() < 0.4:
+            rng.shuffle(rs)
+        cfg['dom'] = ['regions', rs]
+    return cfg
+
+
+def gen_ffvars(rng):
+    out = {}
+    for k, vals in (('elastic_network_bond_type', [0, 1, 5, 6]), ('elastic_network_res_min_dist', [0, 1, 3, 4]),
+                    ('my_bt', [0, 2, 7]), ('my_rmd', [0, 1, 4]), ('other', [9])):
+        if rng.random() < 0.5:
+            out[k] = rng.choice(vals)
+    return out
+
+
+def make_processor(cfg):
+    """a FRESH ApplyRubberBand from the configuration; returns (processor, region list handed to the factory)"""
+    kw = dict(lower_bound=cfg['lo'], upper_bound=cfg['U'] / UNIT, decay_factor=cfg['a'], decay_power=cfg['pw'],
+              base_constant=cfg['base'], minimum_force=cfg['minf'])
+    if not (cfg['names'] == ['BB'] and cfg['default_selector']):
+        kw['selector'] = functools.partial(selectors.proto_select_attribute_in, attribute='atomname',
+                                           values=list(cfg['names']))
+    regions = None
+    if cfg['dom'][0] == 'chain':
+        kw['domain_criterion'] = ARB.same_chain
+    elif cfg['dom'][0] == 'regions':
+        regions = [tuple(r) for r in cfg['dom'][1]]
+        kw['domain_criterion'] = ARB.make_same_region_criterion(regions)
+        # the factory must have taken its own copy: what the caller does to the list afterwards is irrelevant
+        regions.append((-1000, 1000))
+        regions[0] = (99999, 99999)
+    elif cfg.get('pass_always'):
+        kw['domain_criterion'] = ARB.always_true
+    for key, name in (('rmd', 'res_min_dist'), ('bt', 'bond_type'), ('btv', 'bond_type_variable'),
+                      ('rmdv', 'res_min_dist_variable')):
+        if cfg[key] == 'None':
+            kw[name] = None
+        elif cfg[key] is not None:
+            kw[name] = cfg[key]
+    return ARB.ApplyRubberBand(**kw), kw
+
+
+def given(v):
+    return None if v in (None, 'None') else v
+
+
+def expected_options(cfg, ffvars):
+    """the documented resolution, stated independently: explicit value (0 included) wins, else the variable of
+    the molecule's force field, else the default"""
+    btv = cfg['btv'] or DEFAULT_VARS[0]
+    rmdv = cfg['rmdv'] or DEFAULT_VARS[1]
+    bt = given(cfg['bt'])
+    if bt is None:
+        bt = ffvars[btv] if btv in ffvars else 6
+    rmd = given(cfg['rmd'])
+    if rmd is None:
+        rmd = ffvars[rmdv] if rmdv in ffvars else 2
+    return bt, rmd
+
+
+def proc_tokens(cfg):
+    dom = cfg['dom']
+    domt = [0] if dom[0] == 'always' else [1] if dom[0] == 'chain' else [2, [list(r) for r in dom[1]]]
+    return [list(cfg['names']), frac(cfg['lo']), frac(cfg['U'] / UNIT), frac(cfg['a']), frac(cfg['pw']),
+            frac(cfg['base']), frac(cfg['minf']), given(cfg['rmd']), given(cfg['bt']),
+            cfg['btv'] or DEFAULT_VARS[0], cfg['rmdv'] or DEFAULT_VARS[1], domt]
+
+
+def snapshot(proc):
+    return {k: (v if isinstance(v, (int, float, str, type(None))) else id(v)) for k, v in vars(proc).items()}
+
+
+# (a) resolution only: the real run_molecule with apply_rubber_band replaced by a recorder
+rng = chk.rng('resolve')
+res_lines, res_meta = [], []
+real_arb = ARB.apply_rubber_band
+record = []
+ARB.apply_rubber_band = lambda molecule, selector, **kw: record.append((selector, kw))
+try:
+    for i in range(4000 if chk.thorough else 500):
+        cfg = gen_proc(rng, decay=rng.random() < 0.3)
+        cfg['pass_always'] = rng.random() < 0.5
+        if rng.random() < 0.3:      # explicit zeros everywhere
+            cfg.update({'lo': 0, 'a': 0, 'pw': 0, 'minf': 0, 'base': rng.choice([0, 500.0])})
+        proc, kw0 = make_processor(cfg)
+        snap0 = snapshot(proc)
+        for j in range(rng.choice([1, 2, 3])):
+            ffvars = gen_ffvars(rng)
+            mol = build_molecule({'atoms': [], 'edges': [], 'params': {'ffvars': ffvars}})
+            record[:] = []
+            exc = None
+            try:
+                proc.run_molecule(mol)
+            except Exception as e:  # noqa
+                exc = type(e).__name__
+            errs = []
+            if exc or len(record) != 1:
+                impl = 'error %s' % exc
+                errs.append('run_molecule raised %s / did not call apply_rubber_band once' % exc)
+            else:
+                selector, kw = record[0]
+                if selector is selectors.select_backbone:
+                    names = ['BB']
+                else:
+                    names = list(selector.keywords['values'])
+                dc = kw['domain_criterion']
+                domt = ([0] if dc is ARB.always_true else [1] if dc is ARB.same_chain
+                        else [2, [list(r) for r in cfg['dom'][1]]] if dc is kw0.get('domain_criterion') else ['?'])
+                try:
+                    impl = ' '.join([enc(names), enc(frac(kw['lower_bound'])), enc(frac(kw['upper_bound'])),
+                                     enc(frac(kw['decay_factor'])), enc(frac(kw['decay_power'])),
+                                     enc(frac(kw['base_constant'])), enc(frac(kw['minimum_force'])),
+                                     enc(kw['bond_type']), enc(kw['res_min_dist']), enc(domt)])
+                except Exception as e:  # noqa
+                    impl = 'unencodable %r' % (kw,)
+                bt, rmd = expected_options(cfg, ffvars)
+                if kw['bond_type'] != bt or kw['bond_type'] is None:
+                    errs.append('bond_type resolved to %r; constructor %r, force-field variables %r: expected %r'
+                                % (kw['bond_type'], cfg['bt'], ffvars, bt))
+                if kw['res_min_dist'] != rmd or kw['res_min_dist'] is None:
+                    errs.append('res_min_dist resolved to %r; constructor %r, force-field variables %r: expected %r'
+                                % (kw['res_min_dist'], cfg['rmd'], ffvars, rmd))
+                for name, key in (('lower_bound', 'lo'), ('decay_factor', 'a'), ('decay_power', 'pw'),
+                                  ('base_constant', 'base'), ('minimum_force', 'minf')):
+                    if kw[name] != cfg[key] or type(kw[name]) is not type(cfg[key]):
+                        errs.append('%s = %r handed on as %r' % (name, cfg[key], kw[name]))
+                if kw['upper_bound'] != cfg['U'] / UNIT:
+                    errs.append('upper_bound changed')
+            if snapshot(proc) != snap0:
+                errs.append('run_molecule changed the processor object: %r -> %r' % (snap0, snapshot(proc)))
+            ln = line('resolve', proc_tokens(cfg), [[k, v] for k, v in ffvars.items()])
+            chk.count('resolve_rmd_%s' % ('none' if given(cfg['rmd']) is None else 'zero' if cfg['rmd'] == 0 else 'given'))
+            chk.count('resolve_bt_%s' % ('none' if given(cfg['bt']) is None else 'zero' if cfg['bt'] == 0 else 'given'))
+            if j:
+                chk.count('resolve_reused_processor')
+            res_lines.append(ln)
+            res_meta.append(('resolve-%d-%d' % (i, j), impl, errs,
+                             (given(cfg['rmd']) is None or given(cfg['bt']) is None) and bool(ffvars)))
+finally:
+    ARB.apply_rubber_band = real_arb
+res_models = chk.drv.ask(res_lines) if chk.lean_ok else [None] * len(res_lines)
+for ln, (cid, impl, errs, nt), mo in zip(res_lines, res_meta, res_models):
+    chk.case(cid, ln, impl, mo, errs, nt)
+
+
+# (b) histories: ONE processor applied to 2-3 molecules with different force fields; each application must equal
+#     what a fresh processor gives and what the model gives
+def canon_result(spec, exc, rubber, warns, ktab_fn):
+    sel = selected_atoms(spec)
+    if exc is not None:
+        return 'error'
+    if not sel:
+        return 'none' if not rubber and not warns else 'bonds-without-selection'
+    if warns and not rubber:
+        return 'nanwarn'
+    bl, bts = [], set()
+    for inter in rubber:
+        a, b = inter.atoms
+        bt, length, fc = inter.parameters
+        bts.add(bt)
+        pa = next((pos_of(x) for x in spec['atoms'] if x['key'] == a), None)
+        pb = next((pos_of(x) for x in spec['atoms'] if x['key'] == b), None)
+        kexp = ktab_fn(d2_of(pa, pb)) if pa is not None and pb is not None else None
+        fcf = float(fc)
+        if kexp is not None and close(fcf, kexp):
+            fcf = kexp
+        bl.append([a, b, n5_of(length)] + frac(fcf))
+    out = 'bonds ' + enc(bl) + (' +warning' if warns else '')
+    if bl:
+        out += ' bt=' + ','.join(str(b) for b in sorted(bts, key=str))
+    return out
+
+
+def apply_proc(proc, spec):
+    mol = build_molecule(spec)
+    HANDLER.records[:] = []
+    exc = None
+    try:
+        with np.errstate(all='ignore'):
+            proc.run_molecule(mol)
+    except Exception as e:  # noqa
+        exc = type(e).__name__
+    warns = [r for r in HANDLER.records if r.levelno >= logging.WARNING]
+    after = mol.interactions.get('bonds', [])
+    rubber = [i for i in after if i.meta.get('group') == 'Rubber band' and i.meta.get('verif_existing') is None]
+    return exc, rubber, warns
+
+
+rng = chk.rng('history')
+hist_lines, hist_meta = [], []
+for i in range(2500 if chk.thorough else 260):
+    decay = rng.random() < 0.25
+    cfg = gen_proc(rng, decay)
+    proc, _ = make_processor(cfg)
+    snap0 = snapshot(proc)
+    n_app = rng.choice([2, 2, 3])
+    mols, impls, errs, skip, nontriv, finding = [], [], [], False, False, None
+    seps = set()
+    for j in range(n_app):
+        g = gen_spec(rng, False)
+        ffvars = gen_ffvars(rng)
+        bt, rmd = expected_options(cfg, ffvars)
+        p = {'names': cfg['names'], 'U': cfg['U'], 'lo': cfg['lo'], 'a': cfg['a'], 'pw': cfg['pw'], 'base': cfg['base'],
+             'minf': cfg['minf'], 'sep': rmd, 'dom': cfg['dom'], 'via': 'history', 'bond_type': bt,
+             'expect_bt': bt, 'expect_sep': rmd, 'ffvars': ffvars}
+        spec = {'atoms': g['atoms'], 'edges': g['edges'], 'params': p}
+        sel = selected_atoms(spec)
+        ktab = {}
+        exact = cfg['a'] == 0.0
+        if not exact:
+            pts = [pos_of(a) for a in sel if pos_of(a) is not None]
+            for x, pa in enumerate(pts):
+                for pb in pts[x + 1:]:
+                    d2 = d2_of(pa, pb)
+                    if d2 not in ktab:
+                        ktab[d2] = k_expected(p, d2)
+                        if ktab[d2] != ktab[d2] or near_thr(ktab[d2], p['minf']):
+                            skip = True
+            ktab.setdefault(0, k_expected(p, 0))
+        ktab_fn = (lambda d2, p=p: p['base']) if exact else (lambda d2, ktab=ktab, p=p: ktab[d2] if d2 in ktab else k_expected(p, d2))
+        exc, rubber, warns = apply_proc(proc, spec)
+        fresh, _ = make_processor(cfg)
+        fexc, frubber, fwarns = apply_proc(fresh, spec)
+        impl = canon_result(spec, exc, rubber, warns, ktab_fn)
+        fimpl = canon_result(spec, fexc, frubber, fwarns, ktab_fn)
+        if impl != fimpl:
+            errs.append('application %d of a reused processor gives %s; a fresh processor with the same arguments gives '
+                        '%s (force-field variables %r)' % (j + 1, clip(impl, 200), clip(fimpl, 200), ffvars))
+        if snapshot(proc) != snap0:
+            errs.append('application %d changed the processor object: %r' % (j + 1, snapshot(proc)))
+        table = criteria_table(spec, ktab_fn)
+        errs += ['application %d: %s' % (j + 1, e) for e in oracle(spec, exc, rubber, warns, True, table, ktab_fn)]
+        atoms_t = []
+        for a in spec['atoms']:
+            pos = a['pos']
+            atoms_t.append([a['key'], a.get('name'), a.get('chain'), a.get('resid'), a.get('resname'), a.get('icode'),
+                            a.get('old'), [] if pos in ('nan', 'nan2') else pos])
+        mols.append([atoms_t, [list(e) for e in spec['edges']], [[k, v] for k, v in ffvars.items()],
+                     [[d2] + frac(k) for d2, k in sorted(ktab.items())] if not exact else []])
+        impls.append(impl)
+        seps.add(rmd)
+        if rubber:
+            nontriv = True
+    if skip:
+        chk.count('excluded_near_minimum_force')
+        continue
+    chk.count('history_applications=%d' % n_app)
+    chk.count('history_rmd_%s' % ('none' if given(cfg['rmd']) is None else 'zero' if cfg['rmd'] == 0 else 'given'))
+    if len(seps) > 1:
+        chk.count('history_separation_differs_between_applications')
+    chk.count('history_domain_' + cfg['dom'][0])
+    hist_lines.append(line('history', proc_tokens(cfg), mols))
+    hist_meta.append(('history-%d' % i, ' ; '.join(impls), errs, nontriv and len(seps) > 1))
+hist_models = chk.drv.ask(hist_lines) if chk.lean_ok else [None] * len(hist_lines)
+for ln, (cid, impl, errs, nt), mo in zip(hist_lines, hist_meta, hist_models):
+    chk.case(cid, ln, impl, mo, errs, nt)
+
+# (c) the region criterion on its own: overlapping, unordered, reused, caller mutates its list afterwards
+rng = chk.rng('regions')
+reg_lines, reg_meta = [], []
+for i in range(3000 if chk.thorough else 400):
+    rs = []
+    a = rng.randint(-3, 6)
+    for _ in range(rng.choice([1, 2, 2, 3, 4])):
+        b = a + rng.choice([0, 1, 2, 3, 5])
+        rs.append((a, b) if rng.random() < 0.6 else (b, a))
+        a = rng.choice([b - 2, b - 1, b, b + 1, b + 3])
+    if rng.random() < 0.5:
+        rng.shuffle(rs)
+    handed = list(rs)
+    crit_fn = ARB.make_same_region_criterion(handed)
+    handed[:] = [(-50, 50)]                      # the caller's list changes after the criterion was made
+    lo_all = min(min(r) for r in rs) - 2
+    hi_all = max(max(r) for r in rs) + 2
+    g = nx.Graph()
+    vals = {}
+    for k in range(6):
+        resid = rng.randint(lo_all, hi_all)
+        attrs = {'resid': resid}
+        if rng.random() < 0.5:
+            attrs['_old_resid'] = rng.randint(lo_all, hi_all)
+        g.add_node(k, **attrs)
+        vals[k] = attrs.get('_old_resid', resid)
+    for _ in range(6):                           # the same criterion object is asked several times
+        l, r = rng.randrange(6), rng.randrange(6)
+        try:
+            got = bool(crit_fn(g, l, r))
+            got_rev = bool(crit_fn(g, r, l))
+            impl = enc(got)
+        except Exception as e:  # noqa
+            got = got_rev = None
+            impl = 'error ' + type(e).__name__
+        want = any(min(x) <= vals[l] <= max(x) and min(x) <= vals[r] <= max(x) for x in rs)
+        errs = []
+        if got is not want:
+            errs.append('regions %r: residues %d and %d -> %r, but %s region holds both' % (rs, vals[l], vals[r], got,
+                                                                                          'a' if want else 'no'))
+        if got_rev is not got:
+            errs.append('regions %r: criterion(%d, %d) = %r but criterion(%d, %d) = %r' % (rs, vals[l], vals[r], got,
+                                                                                         vals[r], vals[l], got_rev))
+        overlapping = any(max(min(x), min(y)) <= min(max(x), max(y)) for ix, x in enumerate(rs) for y in rs[ix + 1:])
+        chk.count('regions_overlapping' if overlapping else 'regions_disjoint')
+        reg_lines.append(line('region', [list(x) for x in rs], vals[l], vals[r]))
+        reg_meta.append(('region-%d-%d-%d' % (i, l, r), impl, errs, overlapping and want))
+reg_models = chk.drv.ask(reg_lines) if chk.lean_ok else [None] * len(reg_lines)
+for ln, (cid, impl, errs, nt), mo in zip(reg_lines, reg_meta, reg_models):
+    chk.case(cid, ln, impl, mo, errs, nt)
 
 # ---- length rounding: model vs numpy on all small squared distances -----------------------------
 rng = chk.rng('len5')
